@@ -554,8 +554,16 @@ impl Storm {
     }
 
     pub async fn try_liquidate(&mut self, w: &mut World, m: &mut Mon) -> crate::chain::TxOut {
-        let lq = self.liquidator;
         let le = self.some_acct(w);
+        // mostly the rich liquidator (positions everywhere); otherwise any other account, which takes
+        // the debt on as a new position while it may already hold the collateral bank
+        let mut lq = self.liquidator;
+        if self.r.gen_bool(0.35) {
+            let o = self.some_acct(w);
+            if o != le {
+                lq = o;
+            }
+        }
         let acc = w.acct(le);
         let mut assets = vec![];
         let mut liabs = vec![];
@@ -574,7 +582,8 @@ impl Storm {
         let base = pick(&mut self.r, &[pa, pa / 10 + 1, pa / 100 + 1]);
         let amt = amount_near(&mut self.r, base);
         let auth = w.auth_of(lq);
-        let i = w.ix_liquidate(lq, le, ab, lb, auth.pubkey(), amt);
+        let dup = if self.r.gen_bool(0.1) { Some(if self.r.gen_bool(0.5) { ab } else { lb }) } else { None };
+        let i = w.ix_liquidate_x(lq, le, ab, lb, auth.pubkey(), amt, dup);
         w.exec(m, &[i], &[&auth]).await
     }
 
